@@ -39,6 +39,36 @@ def run(ctx, idx):
     wr = res.get("mpilot/libraries/eems/netcdf/io.py::EEMSWrite")
     if rd is None or wr is None:
         raise AnalysisError("NetCDF EEMSRead / EEMSWrite vanished")
+    ctx.rule("C18.k", "The missing value is compared as the number given: no int() of the MissingValue parameter on a live path of the reader (a fractional missing value truncated to an integer marks valid cells holding that integer as missing). `numpy.issubdtype(<x>.mask.dtype, int)` is a dead test - a mask is boolean - so an int() under it is never taken.")
+    par18 = {}
+    for x_ in ast.walk(rd[0].execute.node):
+        for ch_ in ast.iter_child_nodes(x_):
+            par18[id(ch_)] = x_
+    for c_ in ast.walk(rd[0].execute.node):
+        if isinstance(c_, ast.Call) and isinstance(c_.func, ast.Name) and c_.func.id == "int" and c_.args and "MissingValue" in K.src(K.expand(rd[0].execute, c_.args[0])):
+            up_ = par18.get(id(c_))
+            dead = False
+            while up_ is not None:
+                if isinstance(up_, (ast.IfExp, ast.If)):
+                    ts_ = K.src(up_.test).replace(" ", "")
+                    in_true = (c_ is up_.body or any(c_ is y_ for y_ in ast.walk(up_.body))) if isinstance(up_, ast.IfExp) else any(c_ is y_ for b_ in up_.body for y_ in ast.walk(b_))
+                    if in_true and ts_.startswith("numpy.issubdtype(") and ".mask.dtype," in ts_:
+                        dead = True
+                up_ = par18.get(id(up_))
+            ctx.ob("C18.k", "%s.execute::missing-value-not-narrowed" % rd[0].key, rd[0].module.rel, c_.lineno, dead,
+                   "int() of the missing value sits under a test of the mask's element type, which is never an integer type" if dead else
+                   "`%s` truncates the missing value on a live path: MissingValue = 2.5 becomes 2 and every valid cell holding 2 is reported missing (and overwritten with the fill value)" % K.src(c_)[:50])
+    ctx.rule("C18.j", "A Fuzzy read is limited to [-1, +1]: the reader calls insure_fuzzy(result, ...) for its effect and returns `result`, so the helper must clamp the object it is given, in place (C04.b's summary of the helper: bounds established on the argument itself and the argument returned). A helper that clamps a copy leaves the values inside the accepted 1% pad as stored.")
+    from engine.arrays import Scal as _Scal
+
+    _sym = Arr(kind="masked", alias=frozenset({"X"}), M=frozenset({"X"}), D=frozenset({"X"}), shape="same")
+    _res, _out, _hf = R.summarize_helper(idx, "mpilot.utils", "insure_fuzzy", [_sym, _Scal(sym="lo"), _Scal(sym="hi")])
+    _ign = [n_ for n_ in own_nodes(rd[0].execute.node) if isinstance(n_, ast.Expr) and isinstance(n_.value, ast.Call) and K.src(n_.value.func).split(".")[-1] == "insure_fuzzy"]
+    _inplace = isinstance(_out, Arr) and _out.rng == (("s", "lo"), ("s", "hi")) and "X" in _out.alias
+    if _ign:
+        ctx.ob("C18.j", "%s.execute::fuzzy-read-is-clamped" % rd[0].key, rd[0].module.rel, _ign[0].lineno, _inplace,
+               "insure_fuzzy clamps its argument in place; the reader returns that object" if _inplace else
+               "the reader calls `%s` for its effect and ignores what it returns, but insure_fuzzy no longer clamps the array it is given (it works on a copy): a Fuzzy read returns stored values slightly outside [-1, +1] unchanged" % K.src(_ign[0].value)[:50])
     ctx.rule("C18.h", "The NetCDF writer reads every result before it creates its output dataset (lazy evaluation: a variable read from the dataset being rewritten must have been read before it is replaced).")
     iorules.inputs_evaluated_before_open(ctx, idx, "C18.h", wr[0], "a Read of the same dataset that has not run yet opens the new, empty file")
     ctx.rule("C18.i", "Reading returns what the file holds now: neither reader nor writer goes through a result cache (functools.lru_cache and the like) keyed by path and variable name - a dataset rewritten in the same process, or read twice with different type options, would come back as the first reading (modified in place by it).")
